@@ -1642,6 +1642,28 @@ pub fn c07(rec: &RunRecord) -> Vec<Violation> {
             prev = None;
         }
     }
+    // a published round that used up its 512 numbers and still had probes to send: on a
+    // silent network with the window wide open the tracer goes on to max-ttl, so the next
+    // probe was due and the trace had to end with the capacity error instead
+    if t.proto == Proto::Tcp && t.first_ttl == 1 && usize::from(t.max_inflight) >= usize::from(t.max_ttl) && rec.sc.synth.is_none() {
+        for k in 0..rec.rounds.len() {
+            let attempts = attempts_of_round(rec, k);
+            let silent = !world.resps.iter().any(|r| r.handed.is_some_and(|h| h.round_idx as usize == k));
+            let sent = attempts.iter().filter(|a| matches!(a.outcome, AttemptOutcome::OnWire(_))).count();
+            let only_collisions = attempts.iter().all(|a| match a.outcome {
+                AttemptOutcome::OnWire(_) => true,
+                AttemptOutcome::Failed(site, errno) => site == Site::Bind && errno == libc::EADDRINUSE,
+                AttemptOutcome::Open => false,
+            });
+            if attempts.len() >= 512 && silent && only_collisions && sent < usize::from(t.max_ttl) && rec.rounds[k].reason == CompletionReason::RoundTimeLimitExceeded {
+                v.push(Violation::new(
+                    "C07",
+                    "c07.capacity-not-reported",
+                    format!("round {k} used {} sequence numbers for {sent} probes (max-ttl {}) on a silent network and was published: the next probe was due, the trace had to end with the capacity error", attempts.len(), t.max_ttl),
+                ));
+            }
+        }
+    }
     match &rec.end {
         RunEnd::Panic(p) => v.push(Violation::new("C07", format!("c07.panic.{}", panic_loc(p)), format!("the tracer panicked: {p}"))),
         RunEnd::Err(text, _) if text.contains("insufficient buffer capacity") => {
@@ -1691,6 +1713,11 @@ pub fn c05(rec: &RunRecord) -> Vec<Violation> {
         if v.len() > 8 {
             break;
         }
+        if rec.sc.clear_after_round == Some(k as u32) {
+            // the state was cleared after this round was published: what follows is
+            // aggregated afresh, under the same limits
+            reference = RefFlow::default();
+        }
     }
     if let RunEnd::Panic(p) = &rec.end {
         if p.contains("state.rs") {
@@ -1739,7 +1766,17 @@ pub fn c15(rec: &RunRecord) -> Vec<Violation> {
     let mut prev_flows: Vec<(u64, Vec<FlowEntry>)> = Vec::new();
     let mut refs: std::collections::BTreeMap<u64, RefFlow> = std::collections::BTreeMap::new();
     let mut default_ref = RefFlow::default();
+    // rounds published since the state was last cleared
+    let mut since_clear = 0usize;
     for (k, round) in rec.rounds.iter().enumerate() {
+        if k > 0 && rec.sc.clear_after_round == Some(k as u32 - 1) {
+            // cleared after the previous round: identifiers, flows and counts start afresh
+            prev_flows.clear();
+            refs.clear();
+            default_ref = RefFlow::default();
+            since_clear = 0;
+        }
+        since_clear += 1;
         default_ref.apply(round);
         let Some(state) = &round.snapshot else { continue };
         let flows: Vec<(u64, Vec<FlowEntry>)> = state.flows().iter().map(|(f, id)| (id.0, f.entries.clone())).collect();
@@ -1770,7 +1807,7 @@ pub fn c15(rec: &RunRecord) -> Vec<Violation> {
             }
         }
         // default flow aggregates every round
-        if state.round_count(State::default_flow_id()) != k + 1 {
+        if state.round_count(State::default_flow_id()) != since_clear {
             v.push(Violation::new("C15", "c15.default-flow-rounds", format!("round {k}: default flow counts {} rounds", state.round_count(State::default_flow_id()))));
         }
         // attribution of this round
